@@ -152,28 +152,19 @@ def components(mask: np.ndarray, periodic):
 
 # --- Otsu by definition -----------------------------------------------------------------
 def otsu_scores(data: np.ndarray, nbins: int = 256):
-    """Between-class variance for every split of the nbins-bin histogram.
+    """Between-class variance for every split of the nbins-bin histogram (by definition).
 
-    Returns (bin_centres[:-1], scores) where scores[i] is the between-class variance when
-    bins 0..i form class 1 and bins i+1.. form class 2 (nan if a class is empty)."""
+    Returns (bin centres, scores): scores[i] = w1*w2*(m1-m2)^2 when bins 0..i form class 1 and
+    bins i+1.. class 2 (nan if a class is empty); the threshold of split i is centres[i]."""
     data = np.asarray(data, float).ravel()
-    lo, hi = data.min(), data.max()
-    if lo == hi:
-        lo, hi = lo - 0.5, hi + 0.5
-    edges = np.linspace(lo, hi, nbins + 1)
+    counts, edges = np.histogram(data, bins=nbins)
+    counts = counts.astype(float)
     centres = (edges[1:] + edges[:-1]) / 2
-    idx = np.minimum(((data - lo) / (hi - lo) * nbins).astype(int), nbins - 1)
-    # guard against rounding at the bin edges: use the same rule as numpy.histogram
-    counts = np.histogram(data, bins=nbins)[0].astype(float)
-    del idx
-    scores = np.full(nbins - 1, np.nan)
-    n = counts.sum()
-    for i in range(nbins - 1):
-        w1 = counts[: i + 1].sum()
-        w2 = n - w1
-        if w1 == 0 or w2 == 0:
-            continue
-        m1 = (counts[: i + 1] * centres[: i + 1]).sum() / w1
-        m2 = (counts[i + 1 :] * centres[i + 1 :]).sum() / w2
-        scores[i] = w1 * w2 * (m1 - m2) ** 2
+    w1 = np.cumsum(counts)[:-1]
+    w2 = counts.sum() - w1
+    s1 = np.cumsum(counts * centres)[:-1]
+    s2 = (counts * centres).sum() - s1
+    with np.errstate(all="ignore"):
+        scores = w1 * w2 * (s1 / w1 - s2 / w2) ** 2
+    scores[(w1 == 0) | (w2 == 0)] = np.nan
     return centres, scores
